@@ -730,6 +730,46 @@ func c07C(c *core.Case) {
 		// (the gate is the first lock the import's internal writer takes). The
 		// import then holds the lock on a node without authority: it must not publish.
 		pdb := P.Store.DB("db")
+		if how == "demote" {
+			// the lease is lost while the request body is still arriving (a slow
+			// upload): the import holds its lock and has read part of the image
+			w.close()
+			pr, pw := io.Pipe()
+			go func() {
+				data := other.Bytes()
+				_, _ = pw.Write(data[:ps+ps/2])
+				time.Sleep(30 * time.Millisecond) // (the handler is reading)
+				blocked.Store(true)
+				P.Store.Demote()
+				for dl := time.Now().Add(10 * time.Second); P.Store.IsPrimary() && time.Now().Before(dl); {
+					time.Sleep(time.Millisecond)
+				}
+				_, _ = pw.Write(data[ps+ps/2:])
+				_ = pw.Close()
+			}()
+			resp, err := http.Post(P.URL()+"/import?name=db", "application/octet-stream", pr)
+			r := impRes{0, err}
+			if err == nil {
+				_, _ = io.Copy(io.Discard, resp.Body)
+				resp.Body.Close()
+				r.status = resp.StatusCode
+			}
+			if P.Store.IsPrimary() {
+				c.Inconclusive("node did not lose primary status")
+				return
+			}
+			c.Count("ops_judged", 1)
+			c.Count("import_demoted_during_upload", 1)
+			after := c07StableSnapshot(P.Node, "db")
+			detail := map[string]any{"wal": wal, "import_status": r.status, "import_err": fmt.Sprint(r.err), "before": fmt.Sprint(before), "after": fmt.Sprint(after)}
+			if r.err == nil && r.status == 200 || after.pos != before.pos || after.ltx != before.ltx {
+				c.Violate("C07/import-published-after-authority-loss", fmt.Sprintf("upload: the node lost its lease while the body of POST /import was still arriving; the import was answered %d and position/log went %s %s -> %s %s", r.status, before.pos, before.ltx, after.pos, after.ltx), detail)
+				return
+			}
+			c.Count("import_refused_after_loss", 1)
+			c.Distinct(fmt.Sprintf("C/upload/wal%v/status%d", wal, r.status))
+			return
+		}
 		var armed, fired atomic.Bool
 		pdb.VerifOnLockStateChange(func(lt litefs.LockType, prev, next litefs.RWMutexState) {
 			if !armed.Load() || next == litefs.RWMutexStateUnlocked || fired.Swap(true) {
